@@ -12,6 +12,7 @@ import (
 	"verif/engine/sched"
 	"verif/engine/vs"
 	"verif/harness/enc"
+	"verif/harness/refwire"
 	"verif/harness/tr"
 	"verif/harness/wl"
 	"verif/mc"
@@ -37,7 +38,36 @@ func send(env *wl.Env, stream drpc.Stream, rpc, dir string, tag byte, seq int) e
 	l := getLog(env)
 	l.sent[rpc+"/"+dir] = append(l.sent[rpc+"/"+dir], p)
 	out := append([]byte(nil), p...)
-	return stream.MsgSend(&out, enc.Bytes{})
+	err := stream.MsgSend(&out, enc.Bytes{})
+	if err == nil && !env.Cfg.ManualFlush {
+		// a send that reports success (automatic flushing) has had every byte of its message
+		// accepted by the transport: a failed write must surface in the call it happened in
+		end := env.Cli
+		if dir == "s2c" {
+			end = env.Srv
+		}
+		if !acceptedOnWire(end.Written(), p) {
+			env.Failf("MsgSend of %s message %d returned nil although the transport did not accept the whole message (a write of it failed)", rpc, seq)
+		}
+	}
+	return err
+}
+
+// acceptedOnWire reports whether a complete message packet with this payload is among the bytes
+// the transport actually accepted.
+func acceptedOnWire(wire []byte, want []byte) bool {
+	frames, _, _ := refwire.ParseAll(wire)
+	ra := refwire.NewReassembler(1 << 30)
+	for _, f := range frames {
+		p, done, e := ra.Feed(f)
+		if e != refwire.ErrNone {
+			return false
+		}
+		if done && p.Kind == 2 && bytes.Equal(p.Data, want) {
+			return true
+		}
+	}
+	return false
 }
 
 func recv(env *wl.Env, stream drpc.Stream, rpc, dir string) error {
